@@ -44,7 +44,7 @@ type Case struct {
 	Streams []ops.Hex `json:"streams"` // generated graphics shared by all goroutines
 }
 
-var jobKinds = []string{"render", "transcode", "disassemble", "viewbox", "generate", "resolve", "aspect", "color1", "options", "pathdata", "recorder", "zeroenc", "validate", "keepmeta", "reuseenc", "reuseenc"}
+var jobKinds = []string{"render", "transcode", "disassemble", "viewbox", "generate", "resolve", "aspect", "color1", "options", "pathdata", "recorder", "zeroenc", "validate", "keepmeta", "reuseenc", "reuseenc", "manystops"}
 
 // shared state: one palette array read by everybody
 var sharedPalette = func() [64]color.RGBA {
@@ -87,6 +87,26 @@ var sharedValidPalette = func() [64]color.RGBA {
 		p[i] = color.RGBA{uint8(i * 3), uint8(int(a) * i / 20), a / 2, a}
 	}
 	return p
+}()
+
+// sharedStops: a caller-supplied stop list that several goroutines hand to the gradient helpers.
+var sharedStops, sharedStopsCopy = func() ([]generate.GradientStop, []generate.GradientStop) {
+	var a []generate.GradientStop
+	for i := 0; i < 60; i++ {
+		var c color.Color
+		switch i % 4 {
+		case 0:
+			c = color.RGBA{uint8(i * 4), uint8(i), 0, 0xff}
+		case 1:
+			c = color.NRGBA{uint8(255 - i*3), 0x40, uint8(i * 2), uint8(0x80 + i)}
+		case 2:
+			c = color.Gray{uint8(i * 4)}
+		default:
+			c = color.RGBA64{uint16(i * 900), 0x1000, uint16(i * 300), 0xffff}
+		}
+		a = append(a, generate.GradientStop{Offset: float32(i) / 59, Color: c})
+	}
+	return a, append([]generate.GradientStop{}, a...)
 }()
 
 func runJob(w *worker, j Job, inputs [][]byte) uint64 {
@@ -147,6 +167,24 @@ func runJob(w *worker, j Job, inputs [][]byte) uint64 {
 	case "viewbox":
 		vb, err := decode.DecodeViewBox(in)
 		return hash([]byte(fmt.Sprint(vb, err)))
+	case "manystops":
+		// a gradient of 17-58 stops written by a Generator straight into a Renderer, from a stop
+		// list (colours of several models) that every goroutine shares
+		n := 17 + j.Param%42
+		img := image.NewRGBA(image.Rect(0, 0, 24, 20))
+		z := vec.NewRasterizer(img)
+		var r render.Renderer
+		r.SetRasterizer(z, img.Bounds())
+		var g generate.Generator
+		g.SetDestination(&r)
+		g.Reset(ivg.DefaultViewBox, ivg.DefaultPalette)
+		err := g.SetLinearGradient(-30, float32(j.Param%9)-4, 30, 3, generate.GradientSpread(j.Param%4), sharedStops[:n])
+		g.StartPath(0, -32, -32)
+		g.AbsHLineTo(32)
+		g.AbsVLineTo(32)
+		g.AbsHLineTo(-32)
+		g.ClosePathEndPath()
+		return hash(img.Pix, []byte(fmt.Sprint(err)))
 	case "generate":
 		var e encode.Encoder
 		var g generate.Generator
@@ -325,6 +363,11 @@ func checkConcurrent(c Case) error {
 	if len(sharedTransforms) != 1 || sharedTransforms[0] != generate.Scale(2) {
 		return harness.Violatef("c18/transforms-modified", "the shared caller-supplied transform list was modified: %v", sharedTransforms)
 	}
+	for i := range sharedStops {
+		if sharedStops[i] != sharedStopsCopy[i] {
+			return harness.Violatef("c18/stops-modified", "the shared caller-supplied gradient stop list was modified: stop %d is now %#v", i, sharedStops[i])
+		}
+	}
 	if sharedPalette != palCopy {
 		return harness.Violatef("c18/palette-modified", "the shared caller-supplied palette was modified")
 	}
@@ -334,7 +377,7 @@ func checkConcurrent(c Case) error {
 	return nil
 }
 
-var subConc = harness.Define("concurrent", "N in {2,4,8,16,32} goroutines x GOMAXPROCS in {2,4,16}, each running a generated list of independent jobs (Decode->Renderer->raster/vec, Decode->Encoder, Disassemble, DecodeViewBox, Generator->Encoder, Color.Resolve, AspectMeet/Slice, DecodeColor1, Decode with palette options, Decode without a Destination and an option that looks at the metadata, ParsePathData, Decode->recorder, zero-value Encoder, the goroutine's own Encoder Reset for graphic after graphic with metadata other goroutines use too, a caller keeping the metadata handed to its option); the concurrent phase runs before the serial reference, so the first case of every process meets the packages cold over shared corpus graphics, generated streams, one shared palette and the package-level defaults, built with -race: no race report, every result equals the serial result, shared inputs and package variables unchanged; non-trivial = at least two goroutines share an input", checkConcurrent)
+var subConc = harness.Define("concurrent", "N in {2,4,8,16,32} goroutines x GOMAXPROCS in {2,4,16}, each running a generated list of independent jobs (Decode->Renderer->raster/vec, Decode->Encoder, Disassemble, DecodeViewBox, Generator->Encoder, Color.Resolve, AspectMeet/Slice, DecodeColor1, Decode with palette options, Decode without a Destination and an option that looks at the metadata, ParsePathData, Decode->recorder, zero-value Encoder, the goroutine's own Encoder Reset for graphic after graphic with metadata other goroutines use too, a caller keeping the metadata handed to its option, 17-58-stop gradients from one shared stop list of several colour models through Generator->Renderer); the concurrent phase runs before the serial reference, so the first case of every process meets the packages cold over shared corpus graphics, generated streams, one shared palette and the package-level defaults, built with -race: no race report, every result equals the serial result, shared inputs and package variables unchanged; non-trivial = at least two goroutines share an input", checkConcurrent)
 
 func TestConcurrent(t *testing.T) {
 	all := corpus.All()
